@@ -44,6 +44,12 @@ def check_origins(dlf, exp, i, opmap):
     if first_origin_op is None or first_origin_op not in opmap:
         return out
     defining = opmap[first_origin_op][0].name[0]
+    # ... and for a reader it is the first object of the first ORIGIN set of the logical file: both must be one object,
+    # otherwise every object that did not choose an origin carries a non-defining origin's reference
+    if origin_objs and origin_objs[0] is not opmap[first_origin_op][0]:
+        out.append(('origin-wrong', 'defining-origin-not-first-in-file',
+                    f"the first ORIGIN object of the file is {origin_objs[0].name}, the origin added first is "
+                    f"{opmap[first_origin_op][0].name}"))
     for j, eo in exp.lfs[i]['objs'].items():
         if j not in opmap:
             continue
